@@ -401,6 +401,7 @@ func Main(checks map[string]*Check) {
 	}
 
 	total := newCtx(ch, *tier, 0, 1)
+	removeTmp := func() {}
 
 	if n <= 1 {
 		c := newCtx(ch, *tier, 0, 1)
@@ -413,7 +414,7 @@ func Main(checks map[string]*Check) {
 			os.Exit(2)
 		}
 
-		defer os.RemoveAll(tmp)
+		removeTmp = func() { _ = os.RemoveAll(tmp) }
 
 		var wg sync.WaitGroup
 
@@ -454,6 +455,7 @@ func Main(checks map[string]*Check) {
 		for i := 0; i < n; i++ {
 			if errs[i] != nil {
 				fmt.Fprintf(os.Stderr, "INFRA: %v\n", errs[i])
+				removeTmp()
 				os.Exit(2)
 			}
 
@@ -461,6 +463,7 @@ func Main(checks map[string]*Check) {
 		}
 	}
 
+	removeTmp()
 	os.Exit(finish(ch, *tier, &total.res, time.Since(start), n))
 }
 
